@@ -11,8 +11,10 @@ Spec: spec/SmartAccount.tla (properties P1..P12 in its header).  Legs:
           repository's own SpyAuthenticator as leaves
   trace   seeded random histories recorded from the real code as ndjson and validated line by line by TLC against
           TraceSmartAccount (every property as invariant / action property, also inside transactions)
-One narrowly defined deviation of the unchanged tree is reported as a finding (docs/findings_x05.json):
-ConfirmExecution is called after a failed execution.  Anything else that deviates is a violation."""
+Two narrowly defined deviations of the unchanged tree are reported as findings (docs/findings_x05.json):
+ConfirmExecution is called after a failed execution; a transaction whose payer is authenticated and whose
+later message is refused keeps the fee without consuming a sequence number (the same bytes can be charged
+again).  Anything else that deviates is a violation."""
 import concurrent.futures, json, os, re, time
 import vlib
 from vlib import Infra, Violation, log
@@ -41,10 +43,12 @@ BUILD = [("./app/smartaccount/", "smartaccount")]
 PAR = int(os.environ.get("VERIF_PAR", "0") or 0)
 
 SIG_LATE = "tx:confirm-execution-called-after-failed-execution"
+SIG_FEE = "tx:fee-kept-without-consuming-sequence-when-later-message-refused"
 
 MC_CFG = """SPECIFICATION MCSpec
 CONSTANTS
   ConfirmAfterFailedExec = FALSE
+  FeeWithoutSequence = FALSE
   Accts = {"A1", "A2"}
   Ctrl = {"A2"}
   Mode = "%(mode)s"
@@ -61,7 +65,7 @@ VIEW View
 CHECK_DEADLOCK FALSE
 """
 INVS = ("IdsUnique RegWellFormed AuthenticatePure StoresConsistent NoCallsWhileInactive ConfirmOnlyAfterExecution "
-        "TrackOnlyAfterAuth TxIdsFresh")
+        "TrackOnlyAfterAuth TxIdsFresh ChargedFeeConsumesSequence")
 ACTS = "OwnerOnly IdsIncrease IdsKept FrozenWhileInactive NeverTakenBack FailedTxKeepsNothing"
 PROPS = "INVARIANTS " + INVS + "\nPROPERTIES " + ACTS
 ACTIONS = ("MCAdd", "MCRm", "MCAct", "MCReimport", "MCQuery", "MCTxBegin", "MCTxAnte", "MCTxExec", "MCTxPost", "MCTxEnd")
@@ -165,7 +169,7 @@ def run(ctx):
     par = PAR or (4 if q else 12)
     cov = {"samples": []}
     legs = os.environ.get("VERIF_X05_LEGS", "mc,replay,trace").split(",")
-    late = []          # occurrences of the one known deviation; reported after everything else was checked
+    late, feens = [], []   # occurrences of the two known deviations; reported after everything else was checked
 
     # 1. design: exhaustive model checking of the bounded models
     ctx.leg = "mc"
@@ -207,7 +211,7 @@ def run(ctx):
 
     # 2. spec -> impl: one behaviour per distinct (state, last operation), replayed on the real code
     ctx.leg = "replay"
-    gens = [("life", "probe", dict(maxops=3, addset="1, 2, 3, 4, 6, 8, 9, 10", two=True)),
+    gens = [("life", "probe", dict(maxops=3, two=True)),
             ("sem", "probe", dict(mode="sem", maxops=2, seml=3, semt=False)),
             ("sem2", "probe", dict(mode="sem", maxops=2, seml=2, semt=True)),
             ("sem-spy", "spy", dict(mode="sem", maxops=2, seml=3, semt=False))] if q else \
@@ -242,13 +246,14 @@ def run(ctx):
         nb = sum(p["behaviours"] for p in parts)
         ns = sum(p["steps"] for p in parts)
         nl = sum(p["confirm_after_failed_execution"] for p in parts)
+        nf = sum(p["fee_without_sequence"] for p in parts)
         replayed += nb
         steps += ns
         for p in parts:
             for k, v in p["kinds"].items():
                 kinds[k] = kinds.get(k, 0) + v
         cov["replay"][name] = {"behaviours": nb, "operations": ns, "leaves": impl, "model_distinct": r.distinct,
-                               "confirm_after_failed_execution": nl}
+                               "confirm_after_failed_execution": nl, "fee_without_sequence": nf}
         if len(cov["samples"]) < 2:
             with open(gen) as f:
                 for ln in f:
@@ -259,7 +264,8 @@ def run(ctx):
                         cov["samples"].append({"spec_behaviour": b})
                         break
         log("replayed %d spec behaviours (%d operations) of %s on the real code with %s leaves: %d mismatches, %d transactions "
-            "with ConfirmExecution after a failed execution" % (nb, ns, name, impl, len(mm), nl))
+            "with ConfirmExecution after a failed execution, %d with the fee kept and no sequence number consumed"
+            % (nb, ns, name, impl, len(mm), nl, nf))
         if mm:
             m = mm[0]
             with open(gen) as f:
@@ -274,6 +280,14 @@ def run(ctx):
         if nl:
             ex_ = [p["confirm_after_failed_execution_example"] for p in parts if p.get("confirm_after_failed_execution_example")][0]
             late.append({"leg": "replay:" + name, "transactions": nl, "example": ex_})
+        if nf:
+            ex_ = [p["fee_without_sequence_example"] for p in parts if p.get("fee_without_sequence_example")][0]
+            with open(gen) as f:
+                beh = json.loads([ln for i, ln in enumerate(f) if i == ex_["behaviour"]][0])
+            ex_["transaction"] = {k: beh["steps"][ex_["step"]][k] for k in ("msgs", "ext", "fee")}
+            for m_ in ex_["transaction"]["msgs"]:
+                m_["m"].pop("t", None)
+            feens.append({"leg": "replay:" + name, "transactions": nf, "example": ex_})
         states += r.distinct
         trans += r.generated
     for need in ("add", "rm", "act", "reimport", "q", "tx"):
@@ -309,19 +323,31 @@ def run(ctx):
                                                   parallel=par, timeout=3000)
         log("validated %d recorded events of %d histories against TraceSmartAccount: %d transactions (%d accepted), %d adds, "
             "%d removes" % (nlines, nh, ks.get("tx", 0), ks.get("tx:ok", 0), ks.get("add", 0), ks.get("rm", 0)))
-        # 3b. the properties as stated.  After 3a the only way for this to fail is P9's "only after successful execution".
-        try:
-            g2, d2, _ = vlib.validate_trace(PROP, "TraceSmartAccount.tla", "TraceSmartAccount.cfg", trace, parallel=par, timeout=3000)
-            gen_, dist_ = gen_ + g2, dist_ + d2
-        except Violation as v:
-            fc = " ".join(v.detail.get("failed_checks") or [])
-            if "P9-confirm-only-after-successful-execution" not in fc and v.detail.get("violated") != "ConfirmOnlyAfterExecution":
-                raise
-            ev = json.loads(v.detail.get("offending_event") or "{}")
-            ev.pop("st", None)
-            late.append({"leg": "trace", "trace_line": v.detail.get("trace_line"), "event": ev})
-            for p in [p for p in os.listdir(d) if ".part" in p]:
-                os.remove(os.path.join(d, p))
+        # 3b. the properties as stated.  After 3a the only ways for this to fail are P9's "only after successful
+        # execution" and P11's "a charged fee consumes the payer's sequence number": each is then checked alone.
+        def strict(cfgname, names):
+            try:
+                g2, d2, _ = vlib.validate_trace(PROP, "TraceSmartAccount.tla", cfgname, trace, parallel=par, timeout=3000)
+                return g2, d2, None
+            except Violation as v:
+                fc = " ".join(v.detail.get("failed_checks") or [])
+                if not any(n in fc or v.detail.get("violated") == n for n in names):
+                    raise
+                ev = json.loads(v.detail.get("offending_event") or "{}")
+                ev.pop("st", None)
+                for p in [p for p in os.listdir(d) if ".part" in p]:
+                    os.remove(os.path.join(d, p))
+                return 0, 0, {"leg": "trace", "trace_line": v.detail.get("trace_line"), "event": ev}
+        n9 = ("P9-confirm-only-after-successful-execution", "ConfirmOnlyAfterExecution")
+        n11 = ("P11-charged-fee-consumes-the-payers-sequence-number", "ChargedFeeConsumesSequence")
+        g2, d2, dev = strict("TraceSmartAccount.cfg", n9 + n11)
+        gen_, dist_ = gen_ + g2, dist_ + d2
+        if dev:
+            for cfgname, names, bucket in (("TraceSmartAccountP9.cfg", n9, late), ("TraceSmartAccountP11.cfg", n11, feens)):
+                g2, d2, dev = strict(cfgname, names)
+                gen_, dist_ = gen_ + g2, dist_ + d2
+                if dev:
+                    bucket.append(dev)
         cov.update({"recorded_histories": nh, "recorded_events": nlines, "event_kinds": ks})
         states += dist_
         trans += gen_
@@ -334,6 +360,10 @@ def run(ctx):
                     "failed (the post handler ignores its `success` argument), against README 'If the execution is successful, "
                     "we continue in the post handler'; the writes are discarded with the transaction (%s)"
                     % json.dumps(late[0])[:600], {"occurrences": late})
+    if feens:
+        ctx.finding(SIG_FEE, "a transaction whose fee payer is authenticated and whose later message is refused in the ante phase "
+                    "keeps the fee although no sequence number is consumed: the same signed bytes are charged again on every "
+                    "delivery (%s)" % json.dumps(feens[0])[:600], {"occurrences": feens})
     cov["known_finding_hits"] = dict(ctx.known_hit)
     vlib.write_evidence(PROP, ctx.tier, ctx.seed, "model_checking", cov, time.time() - ctx.t0,
                         ["TLC evaluator; Json/IOUtils community modules",
